@@ -197,6 +197,12 @@ class SenderStream(Monitor):
                         w.violate(self.P + ".eof_checksum", f"ck={c.ck.name}", f"{em.info[3]}")
                     self.eof_seen = True
                 else:
+                    # an EOF (cancel) covers the file bytes sent so far - and so does every copy of it that is re-sent later
+                    # (nothing original is sent after a cancellation, so the number cannot change any more)
+                    if not c.metadata_only and em.info[2] != self.next and w.fs_fault_x is None:
+                        w.violate(self.P + ".eof_cancel_size", f"eof={em.info[2]} file bytes sent={self.next} cond={cond} first={not self.cancel_eof}", "")
+                    elif not c.metadata_only and em.info[3] != ref_checksum(int(c.ck), self.data[: em.info[2]]).hex():
+                        w.violate(self.P + ".eof_cancel_checksum", f"ck={c.ck.name} size={em.info[2]} first={not self.cancel_eof}", "")
                     self.cancel_eof = True
         if n_fd > 1:
             w.violate(self.P + ".one_fd_per_call", f"n={n_fd}", "")
